@@ -1,7 +1,24 @@
 package engine
 
 func init() {
-	generators["C10"] = func(p *pg) (Config, Plan) { return p.genErr("C10") }
+	generators["C10"] = func(p *pg) (Config, Plan) {
+		if p.r.Intn(6) == 0 {
+			// concurrent half: readers beside a writer some of whose appends fail
+			// (write or fsync error, before / after / short): "entries of a failed
+			// StoreLogs are not visible to readers in the running process" is a
+			// statement about readers that run WHILE the call fails and rolls back
+			c, plan := p.genC06("C10")
+			nf := 0
+			for i := range plan.Ops {
+				if plan.Ops[i].Kind == "append" && i > 0 && p.r.Intn(3) == 0 && nf < 3 {
+					plan.Ops[i].Fault = &FaultSpec{Class: "err", Target: []string{"WriteAt", "Sync", "Sync"}[p.r.Intn(3)], K: p.r.Pick([]int{80, 15, 5}), When: []string{"before", "after", "mid"}[p.r.Intn(3)]}
+					nf++
+				}
+			}
+			return c, plan
+		}
+		return p.genErr("C10")
+	}
 }
 
 var errTargets = []string{"", "", "", "", "WriteAt", "Sync", "CommitState", "Create", "Delete", "ListDir", "OpenReader", "OpenWriter", "ReadAt", "Load", "SetStable", "GetStable"}
